@@ -409,11 +409,20 @@ def _flow_tensor(acc, T, ham, variant):
     acc.digest.append([variant, list(R0.shape), round(sc0, 12),
                        round(float(numpy.sum(numpy.abs(R0))), 10)])
     for ctx in READ_CTX:
+        # objects that are still STORED in the site basis when the context is entered and are
+        # secularised there without having been read first (the usual way a user does it:
+        # `RT, ham = agg.get_RelaxationTensor(...)` ... `with eigenbasis_of(ham): RT.secularize()`)
+        stale = [(impl, f, _clone(T, R0)) for impl, f in _impls(T)] if ctx in SEC_CTX else []
         with _ctx(ctx, ham):
             R = numpy.array(T.data, copy=True)
             okc = _ids(acc, R, variant, ctx, site_sig)
             if ctx in SEC_CTX:
                 _secular_copies(acc, T, R, okc[:2], variant, ctx)
+                for impl, f, c in stale:
+                    if not _apply_secular(acc, c, impl, f):
+                        continue
+                    _secular_oracle(acc, R, numpy.array(c.data, copy=True), okc[:2], variant,
+                                    impl + "[object-stored-in-site-basis]", ctx, exact=False)
         _ids(acc, T.data, variant, "after-" + ctx, site_sig)
     _secular_copies(acc, T, R0, (ok_t, ok_h), variant, "site")
     # the real object, default call, as OpenSystem does it; then read outside
